@@ -66,12 +66,21 @@ def dec(v):
 
 # ----------------------------------------------------------------------------- learners
 class ParamLearner:
-    def __init__(self, tag, params):
+    def __init__(self, tag, params, share=None):
         self.tag, self._params = tag, dec(params)
+        # share: learners with the same share key hand out ONE params dict object (a config dict the user passed to all of them);
+        # it does not name a family.  build_experiment wires the common object up (one per build).
+        self.share, self._shared = share, None
 
     @property
     def params(self):
+        if self._shared is not None:
+            return self._shared
         return dict(self._params, family="P", tag=self.tag)
+
+
+class ParamLearnerB(ParamLearner):
+    """Same behaviour, another class (so another default family name)."""
 
     def predict(self, context, actions):
         return actions[0], 1.0
@@ -138,6 +147,26 @@ class LowBitsLearner:
         x = next((v for v in reversed(list(context) if context is not None and not isinstance(context, (str, int, float)) else [context])
                   if isinstance(v, float)), 0.0)
         return actions[int(abs(x) * 1e9) % len(actions)], 1.0
+
+    def learn(self, context, action, reward, probability):
+        pass
+
+
+class InitDrawLearner:
+    """A seeded learner that uses its OWN CobaRandom already in __init__ (random initial weights) and keeps drawing from it afterwards."""
+
+    def __init__(self, seed=3, tag="id"):
+        from coba.random import CobaRandom
+        self.tag, self.seed = tag, seed
+        self._rng = CobaRandom(seed)
+        self.w = self._rng.randoms(3)          # "initial weights"
+
+    @property
+    def params(self):
+        return {"family": "InitDraw", "tag": self.tag, "seed": self.seed}
+
+    def predict(self, context, actions):
+        return self._rng.choice(actions), 1 / len(actions)
 
     def learn(self, context, action, reward, probability):
         pass
@@ -312,11 +341,14 @@ INTERRUPTS_ENABLED = True       # (switched off while a check reads its fault-fr
 class TaggedEnv:
     """Class based environment; every context carries the env tag (a string feature)."""
 
-    def __init__(self, tag, n, n_actions=3, fail_at=None, extra=False, params_raise=False, interrupt_at=None, ctx_list=False):
+    def __init__(self, tag, n, n_actions=3, fail_at=None, extra=False, params_raise=False, interrupt_at=None, ctx_list=False, mod_rng=False,
+                 nested_run=False):
         self.tag, self.n, self.n_actions, self.fail_at, self.extra, self.params_raise = tag, n, n_actions, fail_at, extra, params_raise
         # a transient fault: the first read that reaches item `interrupt_at` is hit by a Ctrl-C (KeyboardInterrupt, a BaseException)
         self.interrupt_at, self.interrupted = interrupt_at, False
         self.ctx_list = ctx_list       # contexts are (mutable) lists instead of tuples
+        self.mod_rng = mod_rng         # a feature of every context is drawn with the module-level coba.random functions
+        self.nested_run = nested_run   # read() first runs a small Experiment of its own (e.g. to create its data)
 
     @property
     def params(self):
@@ -326,6 +358,9 @@ class TaggedEnv:
 
     def read(self):
         from coba.primitives import SimulatedInteraction
+        if self.nested_run:
+            import coba as cb
+            cb.Experiment(cb.Environments.from_linear_synthetic(3, n_actions=2, n_context_features=1, n_action_features=0, seed=1), cb.RandomLearner(seed=1)).run(quiet=True, seed=7)
         for i in range(self.n):
             if self.fail_at is not None and i == self.fail_at:
                 raise Injected(f"read:{self.tag}:{i}")
@@ -333,6 +368,9 @@ class TaggedEnv:
                 self.interrupted = True
                 raise KeyboardInterrupt()
             ctx = (self.tag, i % 5, (i * 7 % 11) / 11)
+            if self.mod_rng:
+                import coba.random
+                ctx = ctx + (round(coba.random.random(), 4),)
             if self.ctx_list:
                 ctx = list(ctx)
             acts = list(range(self.n_actions))
@@ -379,9 +417,10 @@ class CachedEnv:
 class RowsEvaluator:
     """Yields prepared rows (C07) - ignores the learner, reads the environment only to count."""
 
-    def __init__(self, rows_by_env, params=None, tag="rows", fail_after=None, reuse_list=False):
+    def __init__(self, rows_by_env, params=None, tag="rows", fail_after=None, reuse_list=False, readonly_params=False):
         self.rows_by_env = rows_by_env      # "env tag/learner tag" -> list of (encoded) rows
         self._params = dec(params or {})
+        self.readonly_params = readonly_params
         self.tag = tag
         self.fail_after = fail_after
         # reuse_list: evaluate() returns a list object that the evaluator keeps, clears and refills on its next call (a result buffer)
@@ -389,6 +428,9 @@ class RowsEvaluator:
 
     @property
     def params(self):
+        if self.readonly_params:
+            import types
+            return types.MappingProxyType(dict(self._params))
         return dict(self._params)
 
     def evaluate(self, environment, learner):
